@@ -126,6 +126,12 @@ func handleMsgUpdateServiceBinding(ctx sdk.Context, k keeper.Keeper, msg *types.
 }
 
 func handleMsgSetWithdrawAddress(ctx sdk.Context, k keeper.Keeper, msg *types.MsgSetWithdrawAddress) (*sdk.Result, error) {
+	// earned fees withdrawn to one of the module's own accounts would be mixed with the deposits or the escrow
+	if msg.WithdrawAddress.Equals(k.GetServiceDepositAccount(ctx).GetAddress()) ||
+		msg.WithdrawAddress.Equals(k.GetServiceRequestAccount(ctx).GetAddress()) {
+		return nil, sdkerrors.Wrap(sdkerrors.ErrInvalidAddress, "the withdrawal address must not be a service module account")
+	}
+
 	k.SetWithdrawAddress(ctx, msg.Owner, msg.WithdrawAddress)
 
 	ctx.EventManager().EmitEvents(sdk.Events{
